@@ -112,7 +112,7 @@ TNext ==
          k == Class(e) IN
      /\ IF k = "ok" THEN TRUE ELSE PrintT(<<"MISMATCH", l, k>>)
      /\ IF e.op # "Set" \/ k # "ok" \/ Exact(e) THEN TRUE
-        ELSE (TLCGet(3) >= 5 \/ PrintT(<<"NOTE", l, "inexact">>)) /\ TLCSet(3, TLCGet(3) + 1)
+        ELSE (IF TLCGet(3) >= 5 THEN TRUE ELSE PrintT(<<"NOTE", l, "inexact">>)) /\ TLCSet(3, TLCGet(3) + 1)
   /\ TLCSet(2, l)
   /\ l' = l + 1
 Consumed == PrintT(<<"CONSUMED", TLCGet(2)>>)
